@@ -110,8 +110,9 @@ Definition cn_feasible_b (tol : Q) (val : nat -> Q) (k : mcn) : bool :=
 Definition consumes (s : msys) (v : nat) : bool :=
   existsb (fun k => existsb (fun e => Nat.eqb (fst e) v && qposb (snd e)) (m_elems k)) (m_cns s).
 Definition var_feasible_b (tol : Q) (s : msys) (val : nat -> Q) (v : nat) : bool :=
-  negb (consumes s v) ||
-  (Qle_bool 0 (val v) && (negb (qposb (vbound s v)) || Qle_bool (val v) (vbound s v + tol * vbound s v))).
+  (qposb (pen s v) || Qeq_bool (val v) 0) &&     (* a disabled (or suspended: the check masks its penalty) variable has rate 0 *)
+  (negb (consumes s v) ||
+   (Qle_bool 0 (val v) && (negb (qposb (vbound s v)) || Qle_bool (val v) (vbound s v + tol * vbound s v)))).
 Definition alloc_feasible_b (tol : Q) (s : msys) (val : nat -> Q) : bool :=
   forallb (cn_feasible_b tol val) (m_cns s) && forallb (var_feasible_b tol s val) (seq 0 (length (m_vars s))).
 
@@ -131,6 +132,21 @@ Definition var_bottleneck_b (tol : Q) (s : msys) (val : nat -> Q) (v : nat) : bo
                     saturated_b tol val k && maximal_on_b tol s val k v) (m_cns s).
 Definition bottleneck_b (tol : Q) (s : msys) (val : nat -> Q) : bool :=
   forallb (var_bottleneck_b tol s val) (seq 0 (length (m_vars s))).
+
+(* BMF (bmf.cpp, is_bmf): the share of a variable on a resource is penalty * weight * rate *)
+Definition share_on (s : msys) (val : nat -> Q) (k : mcn) (v : nat) : Q := pen s v * wsum (m_elems k) v * val v.
+Definition maximal_share_b (tol : Q) (s : msys) (val : nat -> Q) (k : mcn) (v : nat) : bool :=
+  forallb (fun e => negb (qposb (snd e)) ||
+                    Qle_bool (pen s (fst e) * snd e * val (fst e)) (share_on s val k v + tol * share_on s val k v)) (m_elems k).
+Definition var_bmf_b (tol : Q) (s : msys) (val : nat -> Q) (v : nat) : bool :=
+  negb (consumes s v) || at_bound_b tol s val v ||
+  existsb (fun k => existsb (fun e => Nat.eqb (fst e) v && qposb (snd e)) (m_elems k) &&
+                    saturated_b tol val k &&
+                    (maximal_share_b tol s val k v ||
+                     (* fat-pipe: every flow is capped separately *)
+                     (negb (m_shared k) && Qle_bool (m_bound k - tol * m_bound k) (wsum (m_elems k) v * val v)))) (m_cns s).
+Definition bmf_b (tol : Q) (s : msys) (val : nat -> Q) : bool :=
+  forallb (var_bmf_b tol s val) (seq 0 (length (m_vars s))).
 
 (** ** integer protocol:  tn td  nc nv  then per constraint  bn bd shared ne (v wn wd)*ne , per variable  pn pd bn bd  valn vald *)
 Fixpoint take_elems (n : nat) (l : list Z) : list (nat * Q) * list Z :=
@@ -168,9 +184,9 @@ Definition decode_m (l : list Z) : Q * msys * (nat -> Q) :=
   | _ => (0, mkMsys [] [], fun _ => 0)
   end.
 Definition b2z (b : bool) : Z := if b then 1%Z else 0%Z.
-(* answer: feasible? bottleneck? *)
+(* answer: feasible? maxmin bottleneck? bmf? *)
 Definition run_alloc_oracle (l : list Z) : list Z :=
-  let '(tol, s, val) := decode_m l in [b2z (alloc_feasible_b tol s val); b2z (bottleneck_b tol s val)].
+  let '(tol, s, val) := decode_m l in [b2z (alloc_feasible_b tol s val); b2z (bottleneck_b tol s val); b2z (bmf_b tol s val)].
 (* answer: the model's values as reduced num den pairs, then 1 if the light table is empty at the end *)
 Definition run_maxmin (l : list Z) : list Z :=
   let '(_, s, _) := decode_m l in
